@@ -14,8 +14,8 @@ import (
 
 func init() {
 	register("C20", &propDef{
-		Run: checkC20,
-		Explanation: "Static decision of the structural clauses of C20. (1) No use before the error check, module-wide: for every call returning (…, error) each dereferencing use of a nillable result (method call, field access, call) is dominated by the nil edge of a test of that call's error; and no result of such a call is dereferenced on the non-nil edge of its paired error, also when results and error travel through captured variables into deferred closures. (2) Every set-up step of rmain (broker, log file, Ctrl+I generation when printing, template printing, icanhazip, operator shell, HTTPS server) tests its error, and from the error edge every path reports a message containing that error and leaves with log.Fatal* or a non-zero return. (3) Errors are not swallowed along the start-up chain (sstls, hsrv.New, opshell.New, iobroker.New): from the non-nil edge of a tested error no return whose error result is nil (or known nil on that path) is reachable unless the error was reported; untested errors are only those of an explicit allow-list (Close, Restore, in-memory writers). (4) Nothing bypasses terminal restoration: after opshell.New succeeds rmain registers the deferred cleanup before anything else can return, no os.Exit / log.Fatal* / log.Panic* / explicit panic is reachable in rmain after that point nor exists anywhere else in the module's libraries, main is os.Exit(rmain()); inside opshell.New every error return after the TTY was opened calls the cleanup, and the cleanup restores the state MakeRaw returned for the same descriptor. Run-time panics other than those excluded by (1), and the terminal's actual mode, are outside.",
+		Run:         checkC20,
+		Explanation: "Static decision of the structural clauses of C20. (1) No use before the error check, module-wide: for every call returning (…, error) each dereferencing use of a nillable result (method call, field access, call) is dominated by the nil edge of a test of that call's error; and no result of such a call is dereferenced on the non-nil edge of its paired error, also when results and error travel through captured variables into deferred closures. (2) Every set-up step of rmain (broker, log file, Ctrl+I generation when printing, template printing, icanhazip, operator shell, HTTPS server) tests its error, and from the error edge every path reports a message containing that error and leaves with log.Fatal* or a non-zero return. (3) Errors are not swallowed along the start-up chain (sstls, hsrv.New, opshell.New, iobroker.New): from the non-nil edge of a tested error no return whose error result is nil (or known nil on that path) is reachable unless the error was reported; untested errors are only those of an explicit allow-list (Close, Restore, in-memory writers). (4) Nothing bypasses terminal restoration: after opshell.New succeeds rmain registers the deferred cleanup before anything else can return, no os.Exit / log.Fatal* / log.Panic* / explicit panic is reachable in rmain after that point nor exists anywhere else in the module's libraries, main is os.Exit(rmain()); inside opshell.New every error return after the TTY was opened calls the cleanup, and the cleanup restores the state MakeRaw returned for the same descriptor. Run-time panics other than those excluded by (1), and the terminal's actual mode, are outside. The report on rmain's fatal set-up edges must be written by the reporting call itself: module wrappers which only send on a channel do not count.",
 		Assumptions: []string{"a callee returning a non-nil error may return nil/zero other results", "deferred functions run on return but not on os.Exit / log.Fatal"},
 	})
 }
